@@ -872,6 +872,17 @@ pub mod verif {
         result.sort();
         return result;
     }
+
+    /// The rule files the preference manager has located: (slot name, path), in a fixed order.
+    pub fn files() -> Vec<(String, String)> {
+        let pref_manager = PreferenceManager::get();
+        let pm = pref_manager.borrow();
+        return [("intent", &pm.intent), ("speech", &pm.speech), ("overview", &pm.overview), ("navigation", &pm.navigation),
+                ("speech_unicode", &pm.speech_unicode), ("speech_unicode_full", &pm.speech_unicode_full), ("speech_defs", &pm.speech_defs),
+                ("braille", &pm.braille), ("braille_unicode", &pm.braille_unicode), ("braille_unicode_full", &pm.braille_unicode_full),
+                ("braille_defs", &pm.braille_defs)]
+            .iter().map(|(name, path)| (name.to_string(), path.to_string_lossy().to_string())).collect();
+    }
 }
 
 #[cfg(test)]
